@@ -2531,15 +2531,22 @@ class ProvDocument(ProvBundle):
                 # a plain file name: use it as it is ('#', '?', ';' and ':' are
                 # legal in file names and must not be cut off as URL syntax)
                 path = location
-            fd, name = tempfile.mkstemp()
-            stream = os.fdopen(fd, "wb")
-            serializer.serialize(stream, **args)
-            stream.close()
-            if hasattr(shutil, "move"):
-                shutil.move(name, path)
-            else:
-                shutil.copy(name, path)
-                os.remove(name)
+            # Write to a temporary file next to the destination and move it
+            # into place only when it is complete, so that a failure never
+            # leaves a truncated document under the destination's name
+            fd, name = tempfile.mkstemp(
+                dir=os.path.dirname(os.path.abspath(path)), prefix=".prov-tmp-"
+            )
+            try:
+                with os.fdopen(fd, "wb") as stream:
+                    serializer.serialize(stream, **args)
+                os.replace(name, path)
+            except BaseException:
+                try:
+                    os.remove(name)
+                except OSError:
+                    pass
+                raise
 
     @staticmethod
     def deserialize(source=None, content=None, format="json", **args):
